@@ -75,6 +75,8 @@ def main():
         finally:
             sh(["git", "-C", "/repo", "worktree", "remove", "--force", wt])
             shutil.rmtree(wt, ignore_errors=True)
+            # the check regenerated coq/Generated/* from the patched tree: put /repo's back
+            sh([os.path.join(ROOT, "tools", "regen_generated.py")])
         vio = [l for l in c.stdout.split("\n") if l.startswith("VIOLATION")]
         meta["check"] = {"cmd": "./check %s --tier quick" % prop, "exit": c.returncode, "violation_lines": vio,
                          "detected": bool(vio) and c.returncode == 1}
